@@ -22,13 +22,14 @@ const eps = 2.220446049250313e-16
 var origin = gen.V(s2.OriginPoint())
 
 func Run(m *mon.M) {
-	m.Rule = "valid loops of 3..2000 (quick) / ..10^4 (thorough) vertices: star-shaped loops of every family of the shared generator (1e-7 rad .. 1.5 rad, snapped, tiny), near-great-circle loops with vertices within 1e-9..1e-2 rad of antipodal to each other, cycles of a (perturbed, compressed, subdivided) octahedron whose edges are 90..179.9999 degrees, degenerate and nearly degenerate slivers along one geodesic (incl. exactly collinear), each together with its inverse and its vertex rotations; nested and island polygons; triangles 1e-9 rad .. pi. A loop is non-trivial and distinct when new AND (it has an edge longer than 90 degrees, or its area is within the error bound of 0 or 4*pi, or it exceeds a hemisphere, or it has more than 64 vertices, or it is smaller than 1e-10 sr)"
+	m.Rule = "valid loops of 3..2000 (quick) / ..10^4 (thorough) vertices: star-shaped loops of every family of the shared generator (1e-7 rad .. 1.5 rad, snapped, tiny), near-great-circle loops with vertices within 1e-9..1e-2 rad of antipodal to each other, cycles of a (perturbed, compressed, subdivided) octahedron whose edges are 90..179.9999 degrees, degenerate and nearly degenerate slivers along one geodesic (incl. exactly collinear), loops whose lexicographically smallest vertex (or its neighbours) has a mirror twin (x,y,-z), each together with its inverse and its vertex rotations; nested and island polygons; triangles 1e-9 rad .. pi. A loop is non-trivial and distinct when new AND (it has an edge longer than 90 degrees, or its area is within the error bound of 0 or 4*pi, or it exceeds a hemisphere, or it has more than 64 vertices, or it is smaller than 1e-10 sr)"
 	m.Assumptions = []string{"reference area = 2*pi minus the total turning angle computed with 320-bit arithmetic (Gauss-Bonnet), signs of the turns from the exact orientation predicate with symbolic perturbation; cross-checked on star-shaped loops against the 320-bit triangle-fan sum", "reference centroid = 1/2 * sum over edges of angle(a,b) * unit(a x b) in 320-bit arithmetic", "documented error: PointArea/GirardArea 5e-15 per triangle and up to 2n triangles => 1e-14*n for Loop.Area; turningAngleMaxError (11.25 eps per vertex) for TurningAngle; no error is documented for centroids: a centroid is in violation only beyond 1e-12*n + 1e-9*|centroid| + 64 eps * sum over edges of 1/sin(edge length) (the last term is the sensitivity of the true centroid to a rounding of the vertices of nearly 180-degree edges)"}
 	m.Require("loops.checked", 5000)
 	m.Require("loops.degenerate_area", 300)
 	m.Require("loops.long_edge", 500)
 	m.Require("loops.over_hemisphere", 2000)
 	m.Require("rotations.checked", 20000)
+	m.Require("loops.mirror_twin", 200)
 	m.Require("polygons.checked", 1000)
 	m.Require("triangles.checked", 20000)
 	m.Stream("loop", m.N(12000, 600000), loopCase)
@@ -215,10 +216,69 @@ func genSliver(r *rand.Rand) loopCaseT {
 	return loopCaseT{vs: vs, kind: "sliver"}
 }
 
+// genTwin: a star-shaped loop around a point of the equator in which the lexicographically smallest vertex
+// (or its two neighbours) has a mirror twin (x, y, -z): the canonical start vertex / direction then has to
+// be decided by the last coordinate, while the rest of the loop is not symmetric.
+func genTwin(r *rand.Rand) loopCaseT {
+	lng := r.Float64() * 2 * math.Pi
+	ctr := s2.Point{Vector: r3.Vector{X: math.Cos(lng), Y: math.Sin(lng)}}
+	rmax := gen.LogUniform(r, 1e-3, 1.2)
+	sp := gen.StarLoop(r, ctr, 4+r.Intn(14), rmax*(0.3+0.6*r.Float64()), rmax)
+	vs := append([]s2.Point(nil), sp.Vs...)
+	n := len(vs)
+	mi := 0
+	for i := range vs {
+		if vs[i].Cmp(vs[mi].Vector) < 0 {
+			mi = i
+		}
+	}
+	mirror := func(p s2.Point) s2.Point { return s2.Point{Vector: r3.Vector{X: p.X, Y: p.Y, Z: -p.Z}} }
+	x, y, _ := gen.Frame(ctr)
+	byAz := func(ps []s2.Point) {
+		sort.Slice(ps, func(i, j int) bool {
+			return math.Atan2(ps[i].Dot(y), ps[i].Dot(x)) < math.Atan2(ps[j].Dot(y), ps[j].Dot(x))
+		})
+	}
+	kind := "twin-of-smallest"
+	if r.Intn(2) == 0 {
+		w := mirror(vs[mi])
+		if w == vs[mi] {
+			return loopCaseT{}
+		}
+		vs = append(vs, w)
+		byAz(vs)
+	} else {
+		kind = "twin-neighbours"
+		vs[(mi+1)%n] = mirror(vs[(mi+n-1)%n])
+		if vs[(mi+1)%n] == vs[(mi+n-1)%n] {
+			return loopCaseT{}
+		}
+	}
+	for i := range vs {
+		for j := i + 1; j < len(vs); j++ {
+			if vs[i] == vs[j] {
+				return loopCaseT{}
+			}
+		}
+	}
+	if ok, _, _ := gen.StarOK(ctr, vs); !ok {
+		return loopCaseT{}
+	}
+	// the smallest vertex must still be tied in (x, y) with its twin, or sit between the twin neighbours
+	k := r.Intn(len(vs))
+	vs = append(vs[k:], vs[:k]...)
+	return loopCaseT{vs: vs, kind: "star:" + kind, star: true, center: ctr}
+}
+
 func genLoop(c *mon.Case, maxN int) (loopCaseT, bool) {
 	r := c.R
 	var lc loopCaseT
-	switch r.Intn(10) {
+	switch r.Intn(11) {
+	case 10:
+		lc = genTwin(r)
+		if len(lc.vs) >= 3 {
+			c.Count("loops.mirror_twin", 1)
+		}
 	case 0, 1:
 		lc = genNearGC(r)
 	case 2, 3:
